@@ -319,7 +319,7 @@ type World struct {
 const rootURL = "http://site.test"
 
 var probeKeys = []string{"uid", "halfauth", "last_action", "twofactor", "twofactor_auth_token", "twofactor_authed",
-	"oauth2_state", "oauth2_params", "totp_secret", "totp_pending", "sms_number", "sms_secret", "sms_last",
+	"oauth2_state", "oauth2_params", "totp_secret", "totp_pending", "sms_number", "sms_secret", "sms_secret_number", "sms_last",
 	"sms_pending", "w1", "w2"}
 
 func newWorld(cfg Cfg, seed int64) (*World, error) {
